@@ -10,7 +10,7 @@
   (WebSocket, remote) authenticates as "Alice" (case-folded lookup) and fetches everything.
   Connection 3 (raw, remote) never authenticates.
 -/
-import Cjet.Lemmas.DaemonC08Auth
+import Cjet.Lemmas.DaemonC08Noninterf
 
 namespace Cjet.Daemon.C08
 
@@ -143,5 +143,80 @@ theorem unitsOf_single (cfg : Config) (s : State) (c : Nat) (l : List (Bytes × 
     (h : (findPeer s.peers c).isNone = false) :
     Unit.req (mkCtx s o) c (.obj l) ∈ unitsOf cfg s (.message c (some (.obj l)) o) := by
   simp [unitsOf, h, msgUnits]
+
+/-! ## a pair of runs that differ in passwords only -/
+
+/-- the same credential table with another password for bob -/
+def exUsers' : List User := setPassword exUsers (k "bob") (k "other")
+
+/-- the scenario state with that table -/
+def exS' : State := { exS with users := exUsers' }
+
+theorem authReq_id (id : Int) (u pw : String) : (authReq id u pw).getItem (k "id") = some (.num ⟨0, id⟩) := by
+  have h1 : keyEq (k "method") (k "id") = false := by decide +kernel
+  have h2 : keyEq (k "id") (k "id") = true := by decide +kernel
+  simp [authReq, rq, Json.getItem, findItem, h1, h2]
+
+theorem authReq_cred (id : Int) (u pw : String) : getCredentials (authReq id u pw) = .ok (k u) (k pw) := by
+  have h1 : keyEq (k "method") (k "params") = false := by decide +kernel
+  have h2 : keyEq (k "id") (k "params") = false := by decide +kernel
+  have h3 : keyEq (k "params") (k "params") = true := by decide +kernel
+  have h4 : keyEq (k "user") (k "user") = true := by decide +kernel
+  have h5 : keyEq (k "user") (k "password") = false := by decide +kernel
+  have h6 : keyEq (k "password") (k "password") = true := by decide +kernel
+  simp [authReq, rq, getCredentials, Json.getItem, findItem, h1, h2, h3, h4, h5, h6, mkStr]
+  exact ⟨rfl, rfl⟩
+
+theorem exUsers_state : exS.users = exUsers := by
+  have := run_users (cfg := exCfg) exOps { users := exUsers } (Inv.init exCfg exUsers)
+  -- the scenario contains no passwd request: compare the password fields by evaluation
+  have hp : exS.users.map (·.password) = exUsers.map (·.password) := by decide +kernel
+  have hl : exS.users.map UProj = exUsers.map UProj := this
+  clear this
+  generalize exS.users = a at hp hl
+  generalize exUsers = b at hp hl
+  induction a generalizing b with
+  | nil => cases b with
+    | nil => rfl
+    | cons _ _ => cases hl
+  | cons x xs ih =>
+    cases b with
+    | nil => cases hl
+    | cons y ys =>
+      simp only [List.map_cons, List.cons.injEq] at hp hl
+      obtain ⟨hp1, hp2⟩ := hp
+      obtain ⟨hl1, hl2⟩ := hl
+      rw [ih ys hp2 hl2]
+      cases x; cases y
+      simp only [UProj, Prod.mk.injEq] at hl1
+      simp_all
+
+theorem exS_rel : StRel exS exS' := by
+  refine ⟨?_, rfl⟩
+  show PwOnly exS.users exUsers'
+  rw [exUsers_state]
+  exact (PwOnly.refl exUsers).setPassword (k "bob") (k "bob") (k "pw2") (k "other") |> fun h => by
+    have e : setPassword exUsers (k "bob") (k "pw2") = exUsers := by
+      have hp : (setPassword exUsers (k "bob") (k "pw2")).map (·.password) = exUsers.map (·.password) := by decide +kernel
+      have hl := setPassword_proj exUsers (k "bob") (k "pw2")
+      generalize setPassword exUsers (k "bob") (k "pw2") = a at hp hl
+      generalize exUsers = b at hp hl
+      induction a generalizing b with
+      | nil => cases b with
+        | nil => rfl
+        | cons _ _ => cases hl
+      | cons x xs ih =>
+        cases b with
+        | nil => cases hl
+        | cons y ys =>
+          simp only [List.map_cons, List.cons.injEq] at hp hl
+          obtain ⟨hp1, hp2⟩ := hp
+          obtain ⟨hl1, hl2⟩ := hl
+          rw [ih ys hp2 hl2]
+          cases x; cases y
+          simp only [UProj, Prod.mk.injEq] at hl1
+          simp_all
+    rw [e] at h
+    exact h
 
 end Cjet.Daemon.C08
